@@ -1,4 +1,4 @@
-"""C06 probe: a model that modifies its own numpy-array argument in place."""
+"""C06 probes: models that modify their own arguments in place, keep memory on the detector, draw random numbers."""
 import numpy as np
 
 import verif_probes
@@ -82,3 +82,21 @@ def memory(detector, key="trap", inc=1.0):
     geo = detector.geometry
     base = detector.pixel.array if getattr(detector.pixel, "_array", None) is not None else 0.0
     detector.pixel.array = np.full((geo.row, geo.col), prev + 2.0 * pers + float(inc)) + base
+
+
+def draws(detector, n=2, hi=4096):
+    """A STOCHASTIC model without a seed of its own: it draws `n` integers below `hi` from numpy's global generator
+    (the stream that `pipeline_seed` seeds) and adds their sum / 4 (a dyadic number: exact comparison) to the pixel bucket.
+    How far the stream has moved when it returns depends on `n` - a parameter a sweep may vary."""
+    vals = [int(v) for v in np.random.randint(0, int(hi), size=int(n))]
+    verif_probes.TRACE.append(dict(probe="draws", step=int(detector.pipeline_count), draws=vals,
+                                   run=verif_probes.RUN_TAG[0]))
+    geo = detector.geometry
+    base = detector.pixel.array if getattr(detector.pixel, "_array", None) is not None else 0.0
+    detector.pixel.array = np.full((geo.row, geo.col), float(sum(vals)) / 4.0) + base
+
+
+def photon_to_pixel(detector):
+    """pixel += photon (so that the noise a photon-collection model added is visible in the compared bucket)."""
+    base = detector.pixel.array if getattr(detector.pixel, "_array", None) is not None else 0.0
+    detector.pixel.array = np.asarray(detector.photon.array, dtype=float) + base
